@@ -195,6 +195,7 @@ def known_match(finding: Any, case: Case) -> bool:
 MD_TEMPLATE = """# {title} for {n}
 
 Feeds {{{n}}} people; use a {{2 1/2}} litre pan and {{0.75}} cups of stock per {{3}} guests.
+Plain fractions with long numerators: {{11/2}} hours, {{100/8}} minutes, {{12 /4}} eggs, {{10 11/2}} and {{007}} agents.
 
 Hard-wrapped prose: shape the mince into {{8 small
 patties}} about 10cm across, rest them for {{1 1/2
@@ -241,7 +242,8 @@ def mdscale_case(seed: int) -> Case:
     import re as _re
     # ... including curly-brace expressions that span a soft line break (number on one line, its text / unit on the
     # next; break just before the closing brace; break right after the expression)
-    written = [n, n, Fraction(5, 2), 0.75, 3, 8, Fraction(3, 2), 0.25, 6]
+    written = [n, n, Fraction(5, 2), 0.75, 3, Fraction(11, 2), Fraction(100, 8), Fraction(12, 4), 10 + Fraction(11, 2), 7,
+               8, Fraction(3, 2), 0.25, 6]
     for k in (k1, k2):
         html_k = compile_markdown(text).render(k)
         got_vals = _re.findall(r'<span class="rg-scaled-value">(.*?)</span>', html_k, flags=_re.S)[:len(written)]
